@@ -193,10 +193,15 @@ def r2(ctx: Ctx):
              'replies requested with compress=True are decoded without'
              ' decompression', node=ro.node)
   g = cfgm.cfg_of(ro.node)
-  raises = [n for n in g.nodes if isinstance(n.ast, ast.Raise) and unparse(n.ast.exc) == 'result']
-  isexc = lambda c: c.kind == 'cond' and 'isinstance(result, Exception)' in unparse(c.ast)
-  remote = [n for n in g.nodes if isinstance(n.ast, ast.Return) and 'RemoteObject.new(result, worker=self)' in unparse(n.ast)]
-  islazy = lambda c: c.kind == 'cond' and 'LazyObject' in unparse(c.ast)
+  from mlmverif import pat
+  dec = pat.search(ro.node, '$r = $$loader($$arg)')
+  dec = [(n_, b_) for n_, b_ in dec if unparse(n_.value.func).endswith('pickler.loadz')]
+  rv = dec[0][1]['r'] if dec else '<decoded>'
+  raises = [n for n in g.nodes if isinstance(n.ast, ast.Raise) and unparse(n.ast.exc) == rv]
+  isexc = lambda c: c.kind == 'cond' and pat.match(f'isinstance({rv}, Exception)', c.ast) is not None
+  remote = [n for n in g.nodes if isinstance(n.ast, ast.Return)
+            and pat.match(f'RemoteObject.new({rv}, worker=self)', n.ast.value) is not None]
+  islazy = lambda c: c.kind == 'cond' and 'LazyObject' in unparse(c.ast) and rv in unparse(c.ast)
   if raises and any(isexc(c) for c in g.nodes):
     ctx.ok(rule, ro, 'returned exceptions are raised', raises[0].ast)
   else:
@@ -239,7 +244,16 @@ def r2(ctx: Ctx):
   # uncompressed replies
   nb = repo.func(CS, 'PrefetchedCourierServer._next_batch')
   rets = [x for x in walk_no_nested(nb.node) if isinstance(x, ast.Return)]
-  if all(('_return_pickled(result)' in unparse(r) or 'pickler.dumps(' in unparse(r)) for r in rets):
+  def _plain(r):
+    v = r.value
+    if isinstance(v, ast.Call) and unparse(v.func) == 'self._return_pickled':
+      c_ = kwarg(v, 'compress')
+      return c_ is None or (isinstance(c_, ast.Constant) and not c_.value)
+    if isinstance(v, ast.Call) and unparse(v.func).endswith('pickler.dumps'):
+      c_ = kwarg(v, 'compress')
+      return c_ is None or (isinstance(c_, ast.Constant) and not c_.value)
+    return False
+  if rets and all(_plain(r) for r in rets):
     ai = repo.func(CU, 'CourierClient.async_iterate')
     if 'lazy_fns.maybe_make(' in unparse(ai.node) or 'maybe_unpickle(' in unparse(ai.node):
       ctx.ok(rule, nb, 'next_batch: uncompressed pickle <-> maybe_make/maybe_unpickle', nb.node)
@@ -356,7 +370,8 @@ def r4(ctx: Ctx):
   ok = False
   for h in handlers:
     leaves = [n for n in g.reachable([h], edge_ok=cfgm.only_normal) if isinstance(n.ast, ast.Raise)
-              or (isinstance(n.ast, ast.Assign) and unparse(n.ast) == 'result = e')]
+              or (isinstance(n.ast, ast.Assign) and isinstance(n.ast.value, ast.Name)
+                  and n.ast.value.id == (h.ast.name or ''))]
     conds = [c for c in g.reachable([h], edge_ok=cfgm.only_normal) if sd(c)]
     if conds and leaves and all(
         g.must_pass(h, [lv], lambda n: sd(n), cfgm.only_normal) is None for lv in leaves):
